@@ -432,6 +432,74 @@ def r_istep(A, ctx, scope, rule="R-ISTEP", require_scale=False):
     ctx.floor(rule, n, scope.get("floor", 5))
 
 
+def r_istep_bound(A, ctx, scope, rule="R-ISTEP-BOUND"):
+    """Descent clause of the intercept update `w[-1] -= intercept_update_step(y, Xw)`: the step
+    is c * (intercept gradient); the datafit as a function of the intercept has curvature
+    L_b = sum_i d2 value / d Xw[i]^2 (constant, or bounded by the tabled supremum).  The update
+    does not increase the datafit for every data iff c * L_b <= 2 (descent lemma; for constant
+    curvature f(b - k g / L) - f(b) = -(k / L)(1 - k / 2) g^2 exactly, so k > 2 increases it).  Datafits whose curvature in Xw is
+    unbounded (exp links) have no valid constant step and are listed as notes."""
+    ctx.rule(rule, "intercept step length: intercept_update_step == c * (intercept gradient) with "
+             "c * sum_i sup d2 value/d Xw[i]^2 <= 2 (descent lemma on the intercept coordinate)")
+    n = 0
+    for cls in A.prog.datafits:
+        dm = DatafitModel(A, cls)
+        if not dm.has("intercept_update_step") or not dm.has("value"):
+            continue
+        i = dm.inp
+        err = {}
+        ix = ("t0",) if dm.multitask else ()
+        st = _attempt(err, "istep", lambda: _scalar_at(dm.run("intercept_update_step", "dense", [i["y"], i["Xw"]]), *ix))
+        val = _attempt(err, "value", lambda: as_rf(dm.run("value", "dense", [i["y"], i["w"], i["Xw"]])))
+        if st is None or val is None:
+            ctx.note(f"{rule}: {cls.name} not lifted ({list(err.values())[:1]})")
+            continue
+        wrt = ("el", "Xw", ("i~s", "t0") if dm.multitask else ("i~s",))
+        dv = _attempt(err, "dv", lambda: derivative(val, wrt))
+        if dv is None:
+            ctx.note(f"{rule}: {cls.name} derivative not lifted")
+            continue
+        tot = summation("N", "i~s", dv)
+        if cls.name in HESSIAN_SUP:
+            Lb = const(HESSIAN_SUP[cls.name][0])
+            lname = f"n_samples * sup ({HESSIAN_SUP[cls.name][1]}) / n_samples"
+        else:
+            d2 = _attempt(err, "d2", lambda: derivative(dv, wrt))
+            Lb = summation("N", "i~s", d2) if d2 is not None else None
+            lname = "sum_i d2 value / d Xw[i]^2"
+        if Lb is None:
+            ctx.note(f"{rule}: {cls.name}: curvature not lifted ({list(err.values())[:1]})")
+            continue
+        # st == c * tot  with  c = k / Lb,  0 < k <= 1
+        k = None
+        try:
+            k = _const_ratio(st * Lb, tot)
+            if k is None:
+                # the normal form does not cancel polynomial factors: try the constants directly
+                lhs = st * Lb
+                cands = sorted({Fraction(p, q) for p in range(1, 33) for q in (1, 2, 3, 4, 5, 8, 16, 32)},
+                               key=lambda f: (f.denominator + f.numerator, f))
+                for cand in cands:
+                    if lhs.equals(const(cand) * tot):
+                        k = cand
+                        break
+        except Exception as e:  # noqa: BLE001
+            err["cmp"] = repr(e)[:100]
+        if k is None:
+            ctx.note(f"{rule}: {cls.name}: step * curvature is not a constant multiple of the intercept "
+                     f"gradient (curvature {show_rf(Lb)[:80]}): not decided here, R-ISTEP decides the direction")
+            continue
+        n += 1
+        ctx.ob(rule, f"{cls.fq}::intercept_update_step", 0 < k <= 2,
+               detail=f"step * L_b = {k} * gradient, L_b = {lname}",
+               what=f"{cls.name}.intercept_update_step is {k} / L_b times the intercept gradient, where "
+                    f"L_b = {lname} is the curvature of the datafit in the intercept: a step longer "
+                    f"than 2 / L_b increases the datafit where the curvature reaches L_b "
+                    f"(f(b - k g / L) - f(b) = -(k / L)(1 - k / 2) g^2 for curvature L): no monotone descent",
+               loc=dm.method_loc("intercept_update_step"))
+    ctx.floor(rule, n, scope.get("floor", 3))
+
+
 def r_lipc(A, ctx, scope, rule="R-LIPC"):
     ctx.rule(rule, "coordinate Lipschitz constants: get_lipschitz[j] == sum_i X[i,j]^2 * h_i "
              "with h the (constant) raw_hessian, or h >= the tabled supremum of a varying "
